@@ -161,7 +161,7 @@ def run(chk, replay=None):
     _TARGETED["n"] = 0
     chk.assume("TLC/SANY", "projection of chain terms (vf/ampl.py)", "coefficient sharing is read off the observed model")
     real = [("lc_pkpi", "helicity"), ("jpsi_ksp_sigma", "helicity")] + ([("jpsi_ksp_two", "helicity"), ("jpsi_gpp_f2", "helicity"), ("jpsi_3pi_rho", "helicity")] if tier == "thorough" else [])
-    cases = ampl_run.build_cases(chk, n_synth=500 if tier == "thorough" else 60, configs=configs, real=real, which={"parity"}, budget_s=900 if tier == "thorough" else 40, spec_fn=spec_fn)
+    cases = ampl_run.build_cases(chk, n_synth=500 if tier == "thorough" else 60, configs=configs, real=real, which={"parity"}, budget_s=900 if tier == "thorough" else 40, spec_fn=spec_fn, prehistory=True)
     # the TLC-enumerated universe of Amplitude_MC (every tree, spins <= 1, eta = +-1 at both nodes): parity clause on every pair
     cases = cases + ampl_run.universe_cases(chk, stride=1 if tier == "thorough" else 12, offset=4, which={"parity"})
     cases = cases + ampl_run.universe_cases(chk, stride=4 if tier == "thorough" else 80, offset=1, which={"parity"}, maxspin2=1, nfs=4, name="universe4")
